@@ -4,6 +4,7 @@ import (
 	"bytes"
 	"errors"
 	"fmt"
+	"runtime"
 	"strings"
 	"sync"
 
@@ -108,6 +109,15 @@ func signature(c *tcase, class string) string {
 // run executes one case in world g and compares with the oracle. It returns
 // the first problem (or nil) and an observation key for the vacuity guard.
 func (g *genv) run(c *tcase) (*problem, string) {
+	if g.kind == "proxycache" {
+		// proxycache.Fetch never closes the ReadCloser it got from its origin
+		// (an *os.File with a localdisk origin); only the finalizer does. Run
+		// the collector now and then so that a long exploration does not hit
+		// the descriptor limit. (By-catch, outside C02; see NOTES.md.)
+		if g.nrun++; g.nrun%128 == 0 {
+			runtime.GC()
+		}
+	}
 	pre, preHas := g.lookup(c.R)
 	c.PreHas = preHas
 	exp := expectation(c)
